@@ -359,6 +359,23 @@ def run(repo, rep):
                 rep.check(ok, 'C07.e', '%s:index:%s[%d]' % (f.qualname, seq, s.slice.value), '%s:%d' % (f.module.relpath, s.lineno),
                           why, '%s indexes %s[%d] but %s can be empty on this path (%s): IndexError inside the pipeline'
                           % (f.qualname, seq, s.slice.value, seq, why), nontrivial=True)
+    for k in sorted(cone):
+        f = fns[k]
+        if '.extras' in f.module.name or f.module.name.endswith('.color'):
+            continue
+        g = None
+        for s_ in effects._own_nodes(f.node):
+            if isinstance(s_, ast.Subscript) and isinstance(s_.ctx, ast.Load) and isinstance(s_.slice, ast.Constant) \
+                    and isinstance(s_.slice.value, int) and isinstance(s_.value, ast.Call):
+                base = s_.value
+                n += 1
+                safe = isinstance(base.func, ast.Attribute) and base.func.attr in ('split', 'rsplit', 'partition', 'rpartition') and bool(base.args)
+                g = g or Guards(f.node)
+                arg0 = src(base.args[0]) if base.args else ''
+                guarded = any(ff.pol and ('len(%s) == 1' % arg0 == ff.text or ff.text == arg0) for ff in g.of(s_)) and call_name(base) in ('list', 'tuple')
+                rep.check(safe or guarded, 'C07.e', '%s:index-on-call:%s' % (f.qualname, src(s_)[:40]), '%s:%d' % (f.module.relpath, s_.lineno),
+                          'indexing a never-empty call result',
+                          '%s evaluates %s: the indexed result can be empty (IndexError inside the pipeline)' % (f.qualname, src(s_)), nontrivial=True)
     # the sort key used for sort_dict_keys must be total: ordering of user keys is attempted inside
     # try/except TypeError and the fallback compares only types' names
     m0 = repo.module('prettyprinter')
